@@ -396,6 +396,20 @@ func generate(rnd *rand.Rand, thorough bool) []*Prog {
 				mk("xnegtwice", n.p, 0, set, acc(op, "tmp", 0, 1, val()), acc(op, "tmp", 0, 1, val()))
 			}
 		}
+		// --- a loaded value held on the operand stack across a direct call of a local function (which may grow and MOVE
+		// the memory) and consumed afterwards: the load is executed where it stands, not where its value is used
+		if p := l - 16; p >= 0 {
+			for _, op := range []string{"l8", "l16", "l32", "l64"} {
+				for _, hold := range []string{"call", "callgrow"} {
+					h := acc(op, "p", 0, 0, 0)
+					h.Hold = hold
+					mk("heldload", uint32(p), 0, h, acc("l32", "p", 0, 4, 0))
+					h2 := acc(op, "const", 8, 0, 0)
+					h2.Hold = hold
+					mk("heldload-const", 0, 0, acc("s64", "const", 8, 0, val()), h2, acc("l64", "const", 8, 0, 0))
+				}
+			}
+		}
 		// --- store/load round trips
 		if p := l - 16; p >= 0 {
 			for _, off := range []uint32{0, 8} {
@@ -439,7 +453,7 @@ func generate(rnd *rand.Rand, thorough bool) []*Prog {
 		if q.Pages < 1 || q.Pages > 2 || !q.Alloc || q.Mem != "" || q.CFM {
 			continue
 		}
-		if strings.Contains(q.Tmpl, "grow") || strings.HasPrefix(q.Tmpl, "loop") || strings.HasPrefix(q.Tmpl, "cbcall") || strings.HasPrefix(q.Tmpl, "constcall") || strings.HasPrefix(q.Tmpl, "ifcall") || strings.HasPrefix(q.Tmpl, "x") {
+		if strings.Contains(q.Tmpl, "grow") || strings.HasPrefix(q.Tmpl, "loop") || strings.HasPrefix(q.Tmpl, "cbcall") || strings.HasPrefix(q.Tmpl, "constcall") || strings.HasPrefix(q.Tmpl, "ifcall") || strings.HasPrefix(q.Tmpl, "x") || strings.HasPrefix(q.Tmpl, "heldload") {
 			c := *q
 			c.Tmpl, c.CFM = q.Tmpl+"/cfm", true
 			out = append(out, &c)
